@@ -102,6 +102,9 @@ def deferred_cases(rng: random.Random, n: int) -> List[Tuple[str, dict]]:
 
 
 def leftovers(base_threads: Set[Any], base_procs: Set[int], keys_before: Optional[Set[str]]) -> Dict[str, Any]:
+    # step threads (target thread_worker) are joined by ExecutionOrchestrator.join() before the call returns: measured at once,
+    # without the grace period granted to process reaping and queue feeder threads
+    at_return = [t.name for t in threading.enumerate() if t not in base_threads and t.is_alive() and "thread_worker" in t.name]
     gc.collect()
     deadline = time.time() + 3.0
     while time.time() < deadline:
@@ -112,7 +115,8 @@ def leftovers(base_threads: Set[Any], base_procs: Set[int], keys_before: Optiona
         time.sleep(0.02)
     th = [t for t in threading.enumerate() if t not in base_threads and t.is_alive()]
     pr = [p for p in multiprocessing.active_children() if p.pid not in base_procs]
-    res: Dict[str, Any] = {"threads": sorted({t.name.split("-")[0] for t in th}), "n_threads": len(th), "procs": len(pr)}
+    res: Dict[str, Any] = {"threads": sorted({t.name.split("-")[0] for t in th}), "n_threads": len(th), "procs": len(pr),
+                           "step_threads_alive_at_return": len(at_return)}
     if keys_before is not None:
         res["new_keys"] = len(flight_keys() - keys_before)
     return res
@@ -200,7 +204,9 @@ def run(rep: vlib.Reporter, tier: str, seed: int) -> None:
         fg = [s for s in plan["steps"] if s["kind"] == "FG"]
         fails: List[Optional[Tuple[str, str]]] = [None] + [(s["group"], s["names"][0]) for s in (fg if big else fg[-1:])]
         for mode_name in ("SYNC", "THREADING", "MULTIPROCESSING"):
-            for variant in (("run", "stream", "abandon") if mode_name != "MULTIPROCESSING" or big else ("run",)):
+            mp_abandon_quota = 3
+            for variant in (("run", "stream", "abandon") if mode_name != "MULTIPROCESSING" or big or specs.index(spec) < mp_abandon_quota
+                            else ("run",)):
                 for fail in fails:
                     for _ in range(reps):
                         r = e2e(spec, mode_name, variant, fail)
@@ -219,6 +225,11 @@ def run(rep: vlib.Reporter, tier: str, seed: int) -> None:
                             else:
                                 rep.finding(f"threads:{key}", f"{mode_name}/{variant}: threads started by the call are still alive: {r['threads']}", replay)
                                 found = True
+                        if r.get("step_threads_alive_at_return"):
+                            dist["step_threads_alive_at_return"] = dist.get("step_threads_alive_at_return", 0) + 1
+                            rep.finding(f"threads-at-return:{key}", f"{mode_name}/{variant}: {r['step_threads_alive_at_return']} step thread(s) "
+                                        "(thread_worker) still running when the call returned", replay)
+                            found = True
                         if r["procs"]:
                             dist["left_procs"] += 1
                             rep.finding(f"procs:{key}", f"{mode_name}/{variant}: {r['procs']} worker/manager process(es) still alive after the call", replay)
